@@ -77,7 +77,7 @@ PROP = {
                 H("c16_hop_pred_parse_n6", "B", bound="ASCII strings <= 6 bytes", what="HopPredicate::from_str total + alphabet", timeout=1800),
                 H("c16_hop_pred_display_parse_b", "B", tier="experimental", bound="numeric fields < 10 (printed form <= 8 bytes), full structure alphabet",
                   what="HopPredicate Display . parse", timeout=3600),
-                H("c16_hop_pred_parse_n8", "B", tier="experimental", bound="ASCII strings <= 8 bytes", what="HopPredicate::from_str total + alphabet", timeout=3600),
+                H("c16_hop_pred_parse_n8", "B", tier="thorough", bound="ASCII strings <= 8 bytes", what="HopPredicate::from_str total + alphabet", timeout=3600),
             ],
         },
         {
